@@ -34,9 +34,10 @@ def gen_scenario(rng, opts=None):
     clock = gen.rand_instant(rng)[0] // S * S
     nj = rng.randint(2, 5)
     jobs = []
+    all_due = rng.random() < opts.get("p_all_due", 0.25)     # every job overdue when the callers start (nothing sorts last with priority 0)
     for i in range(nj):
         once = rng.random() < 0.45
-        jobs.append({"call": 5 if once else 0, "timings": [["c", rng.choice([1, 1, 2, 30]) * S]],
+        jobs.append({"call": 5 if once else 0, "timings": [["c", rng.choice([1, 1, 2] if all_due else [1, 1, 2, 30]) * S]],
                      "tags": sorted(rng.sample([1, 2, 3], rng.randint(0, 2)))})
         if rng.random() < 0.15:
             jobs[-1]["raises"] = True
@@ -73,6 +74,9 @@ def gen_scenario(rng, opts=None):
                 ops.append({"op": "dtags", "tags": sorted(rng.sample([1, 2, 3], rng.randint(0, 1))), "any": rng.random() < 0.5})
             elif c < 0.67:
                 ops.append({"op": "sch", "call": rng.choice([0, 5]), "timings": [["c", rng.choice([1, 40]) * S]], "tags": sorted(rng.sample([1, 2, 3], rng.randint(0, 1)))})
+                if ops[-1]["call"] == 0 and rng.random() < 0.4:
+                    # a job that is overdue the moment it is registered (it outranks the jobs that are already waiting)
+                    ops[-1]["start"] = [clock - rng.choice([5, 60]) * S, None]
             elif c < 0.77:
                 ops.append({"op": "get", "tags": sorted(rng.sample([1, 2, 3], rng.randint(0, 2))), "any": rng.random() < 0.5})
             elif c < 0.87:
